@@ -115,6 +115,28 @@ fn arg<T: Mag>(r: &mut Rng) -> f64 {
     }
     1.5
 }
+/// second operand correlated with the first: identical, or equal in a random subset of positions
+/// (special-cased fast paths in a binary operator only show on such pairs)
+fn gen_like<T: Nums>(r: &mut Rng, f: &T) -> T {
+    if r.chance(0.6) {
+        return gen(r);
+    }
+    let a = f.nums();
+    let fresh: T = gen(r);
+    let b = fresh.nums();
+    let mode = r.below(4);
+    let k = r.usize(0, T::LEN - 1);
+    let v: Vec<f64> = (0..T::LEN)
+        .map(|i| match mode {
+            0 => a[i],                                  // identical
+            1 => if i == k { b[i] } else { a[i] },      // one position differs
+            2 => if i == k { a[i] } else { b[i] },      // one position equal
+            _ => if r.chance(0.5) { a[i] } else { b[i] },
+        })
+        .collect();
+    T::from_nums(&v)
+}
+
 fn gen<T: Nums>(r: &mut Rng) -> T {
     let v: Vec<f64> = if r.chance(0.15) {
         // one-hot
@@ -217,7 +239,7 @@ macro_rules! op_neg {
 macro_rules! op_add {
     ($m:expr, $r:expr, $t:ty) => {{
         let f: $t = gen($r);
-        let g: $t = gen($r);
+        let g: $t = gen_like($r, &f);
         $m.case(hash_bits(144, f.nums().iter().chain(g.nums().iter()).map(|e| e.to_bits()).chain([<$t as Nums>::LEN as u64])));
         let got = guard(|| f + g);
         check($m, "Add", &[&f, &g], 0.0, got, |_i, c| c[0] + c[1], |v| v[0] + v[1], 1.0, 0.0, $r);
@@ -240,7 +262,22 @@ macro_rules! op_translate {
 fn quartic_ops(m: &mut Mon, r: &mut Rng) {
     type Q = IntOfLogPoly4;
     let f: Q = gen(r);
-    let g: Q = gen(r);
+    let g: Q = if r.chance(0.3) {
+        // equal coefficient block, different k / u (and the reverse)
+        let a = f.nums();
+        let b: Q = gen(r);
+        let b = b.nums();
+        if r.chance(0.5) {
+            Q::from_nums(&[b[0], a[1], a[2], a[3], a[4], b[5]])
+        } else {
+            Q::from_nums(&[a[0], b[1], b[2], b[3], b[4], a[5]])
+        }
+    } else {
+        gen_like(r, &f)
+    };
+    if f.coeffs == g.coeffs && f.u != g.u {
+        m.count("quartic_pair_equal_coeffs_different_u");
+    }
     m.case(hash_bits(146, f.nums().iter().chain(g.nums().iter()).map(|e| e.to_bits())));
     let got = guard(|| f + g);
     check(m, "Add", &[&f, &g], 0.0, got, |_i, c| c[0] + c[1], |v| v[0] + v[1], 1.0, 0.0, r);
@@ -300,6 +337,7 @@ pub fn canaries(m: &mut Mon, r: &mut Rng) {
 pub const FLOORS: &[&str] = &[
     "value_level_checks",
     "polyn_empty_translate",
+    "quartic_pair_equal_coeffs_different_u",
     "impl:Mul<f64>:Poly0", "impl:MulAssign<f64>:Poly5", "impl:Neg:Poly8", "impl:Add:Poly6", "impl:Translate:Poly7",
     "impl:Mul<f64>:Log<Poly3>", "impl:MulAssign<f64>:Log<Poly8>", "impl:Translate:Log<Poly0>",
     "impl:Add:IntOfLog<Poly2>", "impl:Mul<f64>:IntOfLog<Poly4>", "impl:MulAssign<f64>:IntOfLog<Poly7>", "impl:Neg:IntOfLog<Poly1>", "impl:Translate:IntOfLog<Poly6>",
